@@ -1,6 +1,67 @@
-(* placeholder until Proofs/FollowP.v lands: pins the model the schedules are generated from *)
-From XS Require Import Model.Conc Proofs.ConcP.
-Theorem C11_channel_increasing : forall s i j f g, reach s ->
-  nth_error (g_chan s) i = Some f -> nth_error (g_chan s) j = Some g -> (i < j)%nat -> c_id f < c_id g.
-Proof. exact chan_nth_increasing. Qed.
-Print Assumptions C11_channel_increasing.
+(* C11 — follow options: limit is exact, tail skips history, never a silent gap.
+   Same transition system as C03 (after the fixes 6dee0cb and 480faa4). *)
+From XS Require Import Model.Conc Proofs.ConcP Proofs.FollowP.
+
+(* limit = n: never more than n frames, whether they come from history, live or both ... *)
+Theorem C11_limit_exact : forall s k fl n, reach s -> nth_error (g_fs s) k = Some fl ->
+  o_limit (fo fl) = Some n -> o_tail (fo fl) = false \/ n <> 0 ->
+  (length (seen fl) <= N.to_nat n)%nat.
+Proof. exact limit_exact. Qed.
+(* ... once n are delivered nothing more ever is ... *)
+Theorem C11_limit_closes : forall s k fl n, reach s -> nth_error (g_fs s) k = Some fl ->
+  o_limit (fo fl) = Some n -> o_tail (fo fl) = false \/ n <> 0 ->
+  length (seen fl) = N.to_nat n ->
+  forall sched s' fl', crun s sched = Some s' -> nth_error (g_fs s') k = Some fl' -> seen fl' = seen fl.
+Proof. exact limit_closes. Qed.
+(* ... and the stream ends: every sender is gone (heartbeat included) *)
+Theorem C11_limit_ends_stream : forall s k fl n, reach s -> nth_error (g_fs s) k = Some fl ->
+  o_limit (fo fl) = Some n -> o_tail (fo fl) = false \/ n <> 0 ->
+  length (seen fl) = N.to_nat n ->
+  (exists b, f_h fl = HFinished b \/ f_h fl = HNone) -> f_l fl <> LAtSent ->
+  f_hb fl = false /\ (f_l fl = LExited \/ f_l fl = LNone) /\ (f_out fl = [] -> closed fl = true).
+Proof. exact limit_ends_stream. Qed.
+Print Assumptions C11_limit_exact.
+Print Assumptions C11_limit_closes.
+Print Assumptions C11_limit_ends_stream.
+
+(* tail delivers no historical frame: everything delivered was broadcast after the subscription *)
+Theorem C11_tail_no_history : forall s k s1 sched s2 fl2,
+  reach s -> cstep s (LSubscribe k) = Some s1 -> crun s1 sched = Some s2 ->
+  nth_error (g_fs s2) k = Some fl2 -> o_tail (fo fl2) = true ->
+  Forall (fun f => exists i, (length (g_chan s) <= i < f_pos fl2)%nat /\ nth_error (g_chan s2) i = Some f) (seen fl2) /\
+  (forall i x, (length (g_chan s) <= i < qp (f_l fl2) (f_pos fl2))%nat ->
+     nth_error (g_chan s2) i = Some x -> in_scope_c (o_ctx (fo fl2)) x = true -> In x (seen fl2)).
+Proof. exact tail_after_subscription. Qed.
+Print Assumptions C11_tail_no_history.
+
+(* synthetic frames go only to the subscriber that asked for them (they are items of one
+   follower's queue: never in g_stream / g_chan by construction, never counted: C11_limit_exact
+   counts real frames only) *)
+Theorem C11_pulse_only_if_asked : forall s k fl, reach s -> nth_error (g_fs s) k = Some fl ->
+  In IPulse (f_got fl ++ f_out fl) -> o_pulse (fo fl) = true /\ o_follow (fo fl) = true.
+Proof. exact pulse_only_if_asked. Qed.
+Theorem C11_threshold_only_if_following : forall s k fl, reach s -> nth_error (g_fs s) k = Some fl ->
+  In IThreshold (f_got fl ++ f_out fl) ->
+  o_follow (fo fl) = true /\ o_tail (fo fl) = false /\ o_limit (fo fl) = None.
+Proof. exact threshold_only_if_following. Qed.
+Print Assumptions C11_pulse_only_if_asked.
+Print Assumptions C11_threshold_only_if_following.
+
+(* never a silent gap: once the live task has ended (lag, limit, closed hand-off) the heartbeat
+   is gone and NOTHING - neither frames nor pulses - is delivered afterwards *)
+Theorem C11_exit_stops_heartbeat : forall s k fl, reach s -> nth_error (g_fs s) k = Some fl ->
+  f_l fl = LExited -> f_hb fl = false.
+Proof. exact exited_is_final. Qed.
+Theorem C11_nothing_after_exit : forall s k fl, reach s -> nth_error (g_fs s) k = Some fl ->
+  f_l fl = LExited -> f_h fl = HFinished true \/ f_h fl = HFinished false \/ f_h fl = HNone ->
+  forall sched s' fl', crun s sched = Some s' -> nth_error (g_fs s') k = Some fl' ->
+  f_got fl' ++ f_out fl' = f_got fl ++ f_out fl.
+Proof. exact exited_no_more. Qed.
+Print Assumptions C11_exit_stops_heartbeat.
+Print Assumptions C11_nothing_after_exit.
+
+(* corner exposed by the proof: tail + limit = 0 delivers one frame (the live task counts, then
+   compares); the property quantifies over n >= 1 *)
+Check tail_limit_zero_delivers_one.
+(* non-vacuity *)
+Check limit_reached_reachable.
